@@ -114,6 +114,25 @@ NEEDS = {
  'C16h': 'a user overload of all_is_win / all_is_broken with arguments, called as the last statement',
  'C17h': 'write/writeln of `e is bool` where e is a non-zero int with a zero low byte',
  'C18h': '-m24/40/48/56 with two run-time-sized int[]/string[] arrays live at once (shift instead of multiply)',
+ # sixth round
+ 'C01i': '`a[i] op= e` on an array allocated in the current function where e writes a[i] through another reference',
+ 'C02i': '`local ?? computed` evaluated into r1 (same shape as C02h, found independently)',
+ 'C03i': '`continue` in a loop inside a try/stop body of a you-function, then defeat later in the same try',
+ 'C04i': '16-bit: a global bool array of more than 32767 elements indexed with a negative input',
+ 'C05i': '`buf[(E) is byte] = …` / `int a[(E) is byte]` with E in a register or mutable global and outside 0..255',
+ 'C06i': 'a you-call or nested ?? underneath an `is` cast inside a ?? operand',
+ 'C07i': '.length of a string literal / const string where a byte is wanted or deciding an overload (folded to a shrinkable literal)',
+ 'C08i': 'two you-functions with try/stop (or recursion) active between function entry and the defeated try (try_fp hoisted to the prologue)',
+ 'C09i': 'a computed left operand and a right operand containing a comparison of plain operands (`(a<b) == (c<d)`, `(a+b) * ((c<d) is int)`)',
+ 'C10i': 'a parser diagnostic whose offending token is a string literal with bytes that are not valid UTF-8',
+ 'C11i': 'a comparison/equality whose left operand is a comparison (`(a < 0) == (b < 0)`, `a == b == c`)',
+ 'C12i': 'a raw VT / FF / U+001C-1E / NEL / U+2028 / U+2029 inside a comment or literal of a source FILE (splitlines in from_file)',
+ 'C13i': 'two constant bool arrays with the same packed bytes but different lengths within one 8-block',
+ 'C14i': '`0 / x` / `0 % x` with a run-time x that is 0 (folded to 0)',
+ 'C15i': '--unchecked: a preempt inside a defeat function reached from try/stop whose body is really defeated',
+ 'C16i': 'a user overload of all_is_win / all_is_broken / !is_defeat with arguments that returns, called in statement position',
+ 'C17i': 'write/writeln of `n is bool` with n non-zero and a zero low byte',
+ 'C18i': 'two different programs compiled in ONE process, the first defining an overload of a builtin name',
 }
 ALSO = {'C01d': ['C18'], 'C04c': ['C01'], 'C04d': ['C13'], 'C14c': [], 'C13c': ['C10'], 'C16d': ['C03'], 'C17d': ['C01'], 'C09c': ['C02'], 'C09d': ['C01'], 'C18b': ['C01'], 'C17': ['C04'], 'C15': ['C02'], 'C09b': ['C14'], 'C07b': [], 'C16': ['C03']}
 
